@@ -53,6 +53,8 @@ type (
 	mapReduceOptions struct {
 		ctx     context.Context
 		workers int
+		// voidReducer means the reducer is not expected to write a result
+		voidReducer bool
 	}
 
 	// Writer interface wraps Write method.
@@ -146,12 +148,16 @@ func MapReduceChan[T, U, V any](source <-chan T, mapper MapperFunc[T, U], reduce
 // and reduce the output elements with given reducer.
 func MapReduceVoid[T, U any](generate GenerateFunc[T], mapper MapperFunc[T, U],
 	reducer VoidReducerFunc[U], opts ...Option) error {
+	// a void reducer writes nothing, that is not an error. It's decided where the missing
+	// output is noticed, so that an ErrReduceNoOutput passed to cancel is still returned.
+	voidOpts := make([]Option, 0, len(opts)+1)
+	voidOpts = append(voidOpts, opts...)
+	voidOpts = append(voidOpts, func(opts *mapReduceOptions) {
+		opts.voidReducer = true
+	})
 	_, err := MapReduce(generate, mapper, func(input <-chan U, writer Writer[any], cancel func(error)) {
 		reducer(input, cancel)
-	}, opts...)
-	if errors.Is(err, ErrReduceNoOutput) {
-		return nil
-	}
+	}, voidOpts...)
 
 	return err
 }
@@ -322,7 +328,7 @@ func mapReduceWithPanicChan[T, U, V any](source <-chan T, panicChan *onceChan, m
 			err = e
 		} else if ok {
 			val = v
-		} else {
+		} else if !options.voidReducer {
 			err = ErrReduceNoOutput
 		}
 	}
